@@ -34,7 +34,7 @@ Definition nontrivial_case (inp : list Z) : bool := nontrivial_rsv (decode_rcase
    before their reservation *)
 Definition finding_sig (inp obs : list Z) : Z :=
   let c := decode_rcase inp in
-  if (prop_case inp obs =? 1) && negb (r_first c) then 1 else 0.
+  if (prop_case inp obs =? 1) && negb (r_first c) && Spec.eq_listZ (run_case inp) obs then 1 else 0.
 
 Require Extraction.
 Require Import ExtrOcamlBasic.
